@@ -46,12 +46,12 @@ def batcher_suite(ctx, vh):
 
 
 LIM_HDR = "From SioV Require Import Eio.Limits Eio.LimitsCheck.\n"
-LIM_TR = {"post-cl": 0, "post-chunked": 1, "ws": 2, "poll": 3}
+LIM_TR = {"post-cl": 0, "post-chunked": 1, "ws": 2, "poll": 3, "wt": 4}
 LIM_THEOREMS = ["C13_server_never_buffers_beyond", "C13_over_limit_rejected_and_closed",
                 "C13_within_limit_accepted", "C13_disabled_accepts_all", "C13_announced_is_limit"]
 # finding classes: the same decidable classes as Eio/LimitsCheck.v:finding_class
 LIM_CLASS = {0: None, 1: "ws-client-read-limit", 2: "ws-server-disabled-keeps-library-default",
-             3: "post-undeclared-size-unbounded", 4: "ws-server-limit-value"}
+             3: "post-undeclared-size-unbounded", 4: "ws-server-limit-value", 5: "webtransport-server-limit"}
 
 
 def lim_case_term(r):
@@ -67,6 +67,8 @@ def lim_class(r):
         return 2 if r["dis"] else 4
     if r["dir"] == "c2s" and r["tr"] == "post-chunked":
         return 3
+    if r["dir"] == "c2s" and r["tr"] == "wt":
+        return 5
     return 0
 
 
@@ -168,7 +170,7 @@ def limits_suite(ctx, vh):
 
 def run(ctx):
     ctx.rule = ("limits: live rig, sizes {limit-1, limit, limit+1, 32767, 32768, 32769, 65536, 1e6+1 when unlimited} x "
-                "{POST+Content-Length, chunked POST, endless chunked POST, websocket, polling GET} x MaxBufferSize {100, default 1e6, "
+                "{POST+Content-Length, chunked POST (also JSONP, endless), websocket (text, binary, fragmented), polling GET, webtransport} x MaxBufferSize {100, default 1e6, "
                 "disabled, 40000; thorough: -1, 32768, 7} x both directions x {raw peer, real client, real client after upgrade}; "
                 "non-trivial = size within 1 of a limit in play (configured or the library's 32768) or not delivered "
                 "(distinct (config, direction, transport, peer, size)).  "
@@ -179,7 +181,7 @@ def run(ctx):
                    "hand-written model Eio/Limits.v (decisions + the two library limit readers as relations) tied by the live rig cmd/vh limits",
                    "net/http and nhooyr.io/websocket behave as their limit readers are modelled (validated on every live case)"]
     ctx.assumptions = ["sizes are wire bytes (POST body, WebSocket message); a negative MaxBufferSize means no limit",
-                       "webtransport limits are covered by C11 (limited reader), not here"]
+                       "the webtransport framer itself (length forms, limited reader) is C11's; here only its limit decision is modelled and observed live"]
     ctx.proofs(modules=["Eio/BatcherCheck", "Eio/LimitsCheck"])
     vh = ctx.go_build()
     if vh is None:
